@@ -63,6 +63,7 @@ __all__ = [
     "collect_type_params",
     "resolve_type_params",
     "substitute_type_params",
+    "plain_str",
     "get_generic_name",
     "get_name_error_name",
     "is_dialect_subclass",
@@ -710,6 +711,14 @@ def substitute_type_params(typ: Type, substitutions: dict[Type, Type]) -> Type:
             return substitutions.get(typ, typ)
         else:
             return typ
+
+
+def plain_str(value: Any) -> Any:
+    # an instance of a str subclass (a member of a str based enum) as the
+    # plain string it stands for: its repr is not a string literal
+    if isinstance(value, str) and type(value) is not str:
+        return str.__str__(value)
+    return value
 
 
 def get_name_error_name(e: NameError) -> str:
